@@ -667,6 +667,27 @@ def r146(ctx, R):
     R.count('R14.6', n, 36)
 
 
+def r147(ctx, R):
+    """Version flags that are handed to the object layer are used there with
+    the confirmed condition (today: allow_reparenting = 1.37)."""
+    from psa import report
+    from psa.rules import c09
+    scratch = report.Recorder('C09')
+    c09._run_c09(ctx, scratch)
+    n = 0
+    for o in scratch.obs:
+        if 'reparent-gated' in o.construct or 'unparent-gated' in \
+                o.construct or o.construct in ('handler:flag-bound-to-1.37',
+                                               'save:forwards-flag'):
+            n += 1
+            R.obs.append(report.Obligation(
+                'R14.7', '1.37:' + o.construct, o.ok,
+                'below 1.37 an already parented provider can neither be '
+                'moved nor detached: ' + o.expected, o.found, o.file,
+                o.line, o.path, o.nontrivial))
+    R.count('R14.7', n, 6)
+
+
 def r145(ctx, R):
     prog = ctx.prog
     f = prog.func('placement.deploy:deploy')
@@ -731,3 +752,4 @@ def run(ctx, R):
     r144(ctx, R)
     r145(ctx, R)
     r146(ctx, R)
+    r147(ctx, R)
